@@ -400,3 +400,106 @@ def history_text_formats(V):
     V.check(got == want, 'pure:outcome-depends-on-history:text-format',
             lambda: '%s after %r: %r -> %s ; as the first conversion of a fresh interpreter -> %s' % (target, hist, x, got, want))
     V.cover('done')
+
+
+# ------------------------------------------------------------------ lax length constraints on the caller's own list
+class LaxTags(list, Rule):
+    max_length = utype.Lax(2)
+
+
+class LaxPair(list, Rule):
+    length = utype.Lax(2)
+
+
+class LaxHolder(Schema):
+    tags: list = utype.Field(max_length=utype.Lax(2), default_factory=list)
+    typed: List[int] = utype.Field(max_length=utype.Lax(2), default_factory=list)
+
+
+@ob('input/lax-length', marks=['accept'], budget=(40, 100),
+    bounds='list rules without an item type (max_length=Lax(2), length=Lax(2)), a Schema field `tags: list` and a typed List[int] field '
+           'with max_length=Lax(2); input = the caller\'s list of 0..4 items (ints / a nested list): after the parse the caller\'s list '
+           'holds exactly what it held (lax constraints shorten the result, never the input)')
+def input_lax_length(V):
+    n = V.pick('n', [0, 1, 2, 3, 4])
+    x = [[9]] + list(range(n - 1)) if n else []
+    keep = list(x)
+    which = V.pick('which', ['LaxTags', 'LaxPair', 'field', 'typed-field'])
+    try:
+        if which == 'LaxTags':
+            r = LaxTags(x)
+        elif which == 'LaxPair':
+            r = LaxPair(x)
+        elif which == 'field':
+            r = LaxHolder(tags=x).tags
+        else:
+            x = list(range(n))
+            keep = list(x)
+            r = LaxHolder(typed=x).typed
+    except exc.ParseError:
+        r = None
+    V.check(x == keep and len(x) == n, 'pure:input-mutated:lax-length', lambda: '%s: the caller\'s list %r became %r (result %r)' % (which, keep, x, r))
+    V.cover('accept')
+
+
+# ------------------------------------------------------------------ (c''') the interpreter-wide decimal context
+DEC_SNIPPETS = [
+    "Rule.annotate(Decimal, constraints={'decimal_places': 2})(Decimal('1234567890123456789012345678'))",
+    "Rule.annotate(Decimal, constraints={'decimal_places': Lax(2)})(Decimal('123456789012345678901234567.891'))",
+    "Rule.annotate(Decimal, constraints={'multiple_of': 3})(Decimal(10 ** 30 + 1))",
+    "Rule.annotate(Decimal, constraints={'max_digits': Lax(5)})(Decimal('1234.56789'))",
+    "Rule.annotate(Decimal, constraints={'multiple_of': Lax(0.3)})(Decimal('1E+30'))",
+    "type_transform('1' * 40, Decimal) / 3",
+]
+_REF_DEC = {}
+_DEC_PRELUDE = 'from decimal import Decimal\nfrom utype import Rule, Lax\nfrom utype.utils.transform import type_transform\n'
+
+
+def _dec_outcome(snippet):
+    import decimal
+    ns = {}
+    exec(_DEC_PRELUDE, ns)
+    try:
+        return repr(eval(snippet, ns))
+    except Exception as e:  # noqa
+        return 'ERR ' + type(e).__name__
+
+
+def _dec_fresh(snippet):
+    import os
+    import subprocess
+    import sys
+    if snippet not in _REF_DEC:
+        repo = os.environ.get('UTYPE_REPO', '/repo')
+        code = ('import sys\nsys.path.insert(0, %r)\n' % repo) + _DEC_PRELUDE + \
+               'try:\n    print(repr(%s))\nexcept Exception as e:\n    print("ERR", type(e).__name__)\n' % snippet
+        out = subprocess.run([sys.executable, '-c', code], stdout=subprocess.PIPE, stderr=subprocess.DEVNULL, timeout=60)
+        _REF_DEC[snippet] = out.stdout.decode().strip()
+    return _REF_DEC[snippet]
+
+
+@ob('history-independence/decimal-context', marks=['done'], budget=(60, 200),
+    bounds='%d Decimal parses that need more than the default 28 digits of working precision (decimal_places, lax decimal_places / '
+           'max_digits / multiple_of, a 40-digit quotient); 0..2 solver-picked earlier parses, then a solver-picked one: its outcome '
+           'equals the outcome in a fresh interpreter, and the interpreter-wide decimal context (precision, rounding, traps) is as it '
+           'was before' % len(DEC_SNIPPETS))
+def history_decimal_context(V):
+    import decimal
+    n = V.pick('n_before', [0, 1, 2])
+    hist = [V.pick('h%d' % i, list(range(len(DEC_SNIPPETS)))) for i in range(n)]
+    x = V.pick('x', list(range(len(DEC_SNIPPETS))))
+    with V.notrace():
+        ctx = decimal.getcontext()
+        before = (ctx.prec, ctx.rounding, ctx.Emin, ctx.Emax, dict(ctx.traps))
+        want = _dec_fresh(DEC_SNIPPETS[x])
+        for h in hist:
+            _dec_outcome(DEC_SNIPPETS[h])
+        got = _dec_outcome(DEC_SNIPPETS[x])
+        ctx = decimal.getcontext()
+        after = (ctx.prec, ctx.rounding, ctx.Emin, ctx.Emax, dict(ctx.traps))
+        if after != before:
+            ctx.prec, ctx.rounding = before[0], before[1]      # (so that the next path of this process starts clean)
+    V.check(after == before, 'pure:decimal-context-changed', lambda: 'after %r then %r: context %r -> %r' % (hist, x, before[:2], after[:2]))
+    V.check(got == want, 'pure:outcome-depends-on-history:decimal-context',
+            lambda: 'after snippets %r: %s -> %s ; in a fresh interpreter -> %s' % (hist, DEC_SNIPPETS[x], got, want))
+    V.cover('done')
